@@ -59,11 +59,6 @@ func TestSim(t *testing.T) {
 		// "durably blocked", so a lock-level deadlock in the library would make the bubble
 		// spin forever; report it as a hang and leave the process
 		timer := time.AfterFunc(limit, func() {
-			curMu.Lock()
-			for _, l := range curLines {
-				bw.WriteString(l)
-				bw.WriteByte('\n')
-			}
 			buf := make([]byte, 1<<18)
 			n := runtime.Stack(buf, true)
 			stacks := strings.ReplaceAll(string(buf[:n]), "\n", " | ")
@@ -103,11 +98,15 @@ func runScenario(t *testing.T, sc *Scenario, drv Driver, bw *bufio.Writer) {
 	curLines = nil
 	curMu.Unlock()
 	addLine := func(l string) {
-		lines = append(lines, l)
-		curMu.Lock()
-		curLines = append(curLines, l)
-		curMu.Unlock()
+		// written through at once: if the process dies (a leaked goroutine makes the bubble
+		// panic on exit, a library panic on a foreign goroutine) the partial trace survives
+		bw.WriteString(l)
+		bw.WriteByte('\n')
+		if len(l) > 0 && l[0] == 'A' {
+			bw.Flush()
+		}
 	}
+	_ = lines
 	status := "ok"
 	func() {
 		defer func() {
@@ -156,9 +155,6 @@ func runScenario(t *testing.T, sc *Scenario, drv Driver, bw *bufio.Writer) {
 			status = "failed"
 		}
 	}()
-	for _, l := range lines {
-		bw.WriteString(l)
-		bw.WriteByte('\n')
-	}
 	fmt.Fprintf(bw, "X %s %s\n", sc.Name, status)
+	bw.Flush()
 }
